@@ -17,7 +17,7 @@ PROP = "C10"
 MANIFEST = dict(
     level="model_checking", design_ref="DESIGN.md 8 (C10), 7 (Streaming / Decoder), Appendix A.5",
     technique="TLA+ model of decoder thread + frame ring + streaming sound (TLC, all interleavings, safety + liveness under fairness, every fault position) + TLC schedules replayed on the real decoder thread through cfg(kira_verif) yield points + TLC trace validation against P_C10",
-    text="TLC checks, for every failing decoder call (constructor seek, first packet, mid-stream) and every interleaving of decoder iterations, callbacks (split per output frame), stop, rejection by a full track, discarding the manager and pop_error, that the thread leaves its loop within ring-capacity+3 iterations of having a reason to end, never iterates twice without pushing/sleeping, that an error stops and unloads the sound, silences it and reaches the handle first, and that frames are heard in order with gaps only; liveness (the thread eventually exits) is checked under weak fairness. TLC-generated schedules are replayed on a real streaming sound with its real decoder thread stepped deterministically.",
+    text="TLC checks, for every failing decoder call (constructor seek, first packet, mid-stream) and every interleaving of decoder iterations, callbacks (split per output frame), stop, rejection by a full track, discarding the manager and pop_error, that the thread leaves its loop within ring-capacity+3 iterations of having a reason to end, never iterates twice without pushing/sleeping, that an error stops and unloads the sound, silences it and reaches the handle first, and that frames are heard in order with gaps only; liveness (the thread eventually exits) is checked under weak fairness. TLC-generated schedules are replayed on a real streaming sound with its real decoder thread stepped deterministically. Also: a paused stream told to resume at a clock time whose clock is dropped (WaitGone: the sound is cancelled, the thread must end), and a sound whose creation failed occupies nothing on its track.",
     note="Rate 1, no loop, no seeks in this model (seek-driven decoding is covered through C09). 'Bounded time' and 'busy-spin' are counted in decoder loop iterations granted by the scheduler, not wall-clock time. The audio callback is atomic in replays (no yield points inside the sound's process); the per-frame races are covered at model level only.")
 
 
